@@ -546,18 +546,45 @@ func (h *harness) judge(out *sim.Outcome) *simrt.Violation {
 	return viols[0]
 }
 
+// oddClasses are content classes that make some strategies dereference nil
+// (C16's business; kept out of C07's own scenarios, which are about choice and timing).
+var oddClasses = map[string][]string{
+	"beaconblockproposal-best":  {"nildata", "nilvalue"},
+	"beaconblockroot-latest":    {"nildata"},
+	"beaconblockroot-majority":  {"nildata"},
+	"aggregateattestation-best": {"nilattdata"},
+}
+
+// OddScenarios returns, for property prop, one scenario per strategy that also
+// feeds the odd content classes; only crashes are reported (as prop/panic/<strategy>),
+// every other verdict belongs to C07 and is dropped here.
+func OddScenarios(prop string) []*sim.Scenario {
+	var out []*sim.Scenario
+	for _, ad := range adapters {
+		cp := *ad
+		cp.invalid = append(append([]string{}, ad.invalid...), oddClasses[ad.name]...)
+		name := ad.name
+		inner := execFor(&cp)
+		out = append(out, &sim.Scenario{Property: prop, Name: "strategy-" + name, Gen: genFor(&cp), Weight: 1, Exec: func(plan any, sched *simrt.Tape) *sim.Outcome {
+			o := inner(plan, sched)
+			if o != nil && o.Violation != nil {
+				if strings.HasSuffix(o.Violation.Kind, "/panic") {
+					o.Violation.Kind = prop + "/panic/" + env.PanicSite(o.Violation.Detail)
+				} else if !strings.HasPrefix(o.Violation.Kind, "harness-") {
+					o.Violation = nil
+				}
+			}
+			return o
+		}})
+	}
+	return out
+}
+
 func init() {
-	// C07_CRASHERS=1 also feeds nil Data (and nil inner fields) to the strategies that dereference them
-	// unchecked (C16's business; off by default to keep C07 about choice and timing).
+	// C07_CRASHERS=1 feeds the odd classes to C07's own scenarios too (developer aid).
 	if sel := os.Getenv("C07_CRASHERS"); sel != "" {
-		extra := map[string][]string{
-			"beaconblockproposal-best":  {"nildata", "nilvalue"},
-			"beaconblockroot-latest":    {"nildata"},
-			"beaconblockroot-majority":  {"nildata"},
-			"aggregateattestation-best": {"nilattdata"},
-		}
 		for _, ad := range adapters {
-			for _, cl := range extra[ad.name] {
+			for _, cl := range oddClasses[ad.name] {
 				if sel == "1" || sel == cl { // C07_CRASHERS=<class> feeds only that class
 					ad.invalid = append(ad.invalid, cl)
 				}
